@@ -8,6 +8,10 @@ MCMsgs == { M("base", "B1", FALSE, FALSE),        \* IPv4 announce, ordinary att
             M("mixed", "B1mpu", TRUE, FALSE),     \* IPv4 announce + MP_UNREACH
             M("aggr2", "Bag", FALSE, FALSE),      \* AGGREGATOR in 2-byte form: valid on asn2, attribute discard on asn4
             M("taw", "Btaw", FALSE, TRUE),        \* malformed MED: treat-as-withdraw
-            M("other", "B2", FALSE, FALSE) }      \* other ordinary attributes
-MCSessDep == {"Bag"}
+            M("other", "B2", FALSE, FALSE),       \* other ordinary attributes
+            \* AS_PATH bytes valid both ways: two sequences of 2-byte AS numbers, or one sequence of two 4-byte ones
+            M("ambig", "Bamb", FALSE, FALSE),
+            \* an AIGP attribute: kept on a session whose neighbour enabled it, discarded elsewhere (RFC 7311 3.1)
+            M("aigp", "Baigp", FALSE, FALSE) }
+MCSessDep == {"Bag", "Bamb", "Baigp"}
 =============================================================================
